@@ -4,9 +4,11 @@
 //	new                              => ok
 //	md5 <hex>                        => <crypto/md5 digest>
 //	dg <secret hex> <ack|nak|def> <datagram hex>  => drop | act <coa|dm> <fields|-> <response hex> | panic … | hang
+//	dgp <secret hex> <policy> <prime hex> <datagram hex>  => the same for the datagram, delivered immediately after <prime>
 package main
 
 import (
+	"bytes"
 	"crypto/md5"
 	"encoding/binary"
 	"encoding/hex"
@@ -65,6 +67,14 @@ func (run) Do(op string) string {
 			return "badop"
 		}
 		return driver(string(sec)).Send(f[2], dg)
+	case len(f) == 5 && f[0] == "dgp":
+		sec, ok1 := unhex(f[1])
+		prime, ok2 := unhex(f[3])
+		dg, ok3 := unhex(f[4])
+		if !ok1 || !ok2 || !ok3 || len(sec) == 0 || (f[2] != "ack" && f[2] != "nak" && f[2] != "def") {
+			return "badop"
+		}
+		return driver(string(sec)).SendPrimed(f[2], prime, dg)
 	}
 	return "badop"
 }
@@ -202,6 +212,56 @@ func (comp) Gen(r *rand.Rand, tier string, emit func([]string)) {
 				}
 			}
 			emit(seq)
+		}
+	}
+
+	// 3b. the listener reuses ONE receive buffer: a datagram shorter than its Length field must not be completed
+	// by what the previous datagram left behind.  The previous datagram is the full packet P the test datagram
+	// was cut from (every cut 20..len-1, and a few below 20), a padded P, or junk that ends in P's tail.
+	dgpop := func(sec, pol string, prime, d []byte) string {
+		return fmt.Sprintf("dgp %s %s %s %s", hex.EncodeToString([]byte(sec)), pol, hexs(prime), hexs(d))
+	}
+	for si, sec := range secrets {
+		if !thorough && si == 2 {
+			continue
+		}
+		sets := attrSets(r)
+		shapes := []int{1, 2, 4}
+		if thorough {
+			shapes = []int{0, 1, 2, 3, 4, 8, 9}
+		}
+		for bi, ai := range shapes {
+			for ci, code := range []byte{43, 40} {
+				if !thorough && ai == 2 && (ci+si)%2 == 1 {
+					continue
+				}
+				p := coadrv.Sign(code, byte(0x40+bi), sets[ai], sec)
+				pol := policies[(bi+ci+si)%3]
+				seq := []string{"new", dgop(sec, pol, p)}
+				for k := 0; k < len(p); k++ {
+					if k < 20 && k%6 != 1 {
+						continue
+					}
+					seq = append(seq, dgpop(sec, pol, p, p[:k]))
+				}
+				if len(p) > 24 {
+					k := 20 + (len(p)-20)/2
+					// the previous datagram is longer than P (trailing bytes), or is not authentic itself
+					seq = append(seq, dgpop(sec, pol, cat(p, []byte{9, 9, 9}), p[:k]))
+					junk := append(bytes.Repeat([]byte{0xee}, k), p[k:]...)
+					seq = append(seq, dgpop(sec, pol, junk, p[:k]))
+					seq = append(seq, dgpop(sec, pol, junk, p[:len(p)-1]))
+					// Length field larger than what is sent AND larger than P: completed by a longer previous datagram
+					longer := coadrv.Sign(code, byte(0x60+bi), cat(sets[ai], coadrv.Attr(18, []byte("tail"))), sec)
+					seq = append(seq, dgpop(sec, pol, longer, longer[:len(p)]))
+					seq = append(seq, dgpop(sec, pol, longer, longer[:20]))
+					// a different authentic packet before: nothing to complete with
+					seq = append(seq, dgpop(sec, pol, longer, p[:k]))
+					// and the full packet after its own truncation is still acted on
+					seq = append(seq, dgpop(sec, pol, p[:k], p))
+				}
+				emit(seq)
+			}
 		}
 	}
 
